@@ -720,14 +720,14 @@ func (ms *monitorState) apply(kt *keyTrack, ac *action, o *Outcome, after *MKey,
 			}
 			if h.EFlag&efUnlim != 0 {
 				class := "unlimited_expired"
-				if ht != nil && ht.everMs && ht.renewed {
-					class = "expired_early_ms_wheel_renewal"
-				} else if ht != nil && ht.kept {
+				if ht != nil && ht.kept {
 					// F73: the renewal with flag 0x4000 and Expried 0xffff left the old deadline in force
 					class = "unlimited_65535_renewal_kept_old_deadline"
 					if el, e := now.Sub(ht.keptRef), expiryDur(ht.keptE, ht.keptFlag); el+msSlack(ht.keptFlag&efMs != 0) < e {
 						class = "expired_early"
 					}
+				} else if ht != nil && ht.everMs && ht.renewed {
+					class = "expired_early_ms_wheel_renewal"
 				}
 				ms.violate("C06", class, "key %d: hold l%d with the unlimited-expiry flag was ended by time (millisecond terms at some point: %v, renewed: %v)", keyIndex(kt.id.key), lidIndex(h.Lid), ht != nil && ht.everMs, ht != nil && ht.renewed)
 			} else if ht != nil {
